@@ -29,7 +29,7 @@ def gen_behaviours(cfg, name):
     return path, res
 
 
-def replay(scen, workdir, tag, frag=0, shards=8, scale=1, delay_ms=0, every=1):
+def replay(scen, workdir, tag, frag=0, shards=8, scale=1, delay_ms=0, every=1, only=""):
     traces, procs = [], []
     n = sum(1 for _ in open(scen)) // every
     shards = max(1, min(shards, n // 50))
@@ -37,7 +37,7 @@ def replay(scen, workdir, tag, frag=0, shards=8, scale=1, delay_ms=0, every=1):
         tr = os.path.join(workdir, "%s_%d.ndjson" % (tag, i))
         traces.append(tr)
         cmd = ["timeout", "900", VH, "reader-l1", "--scen", scen, "--out", tr, "--shards", str(shards), "--shard", str(i), "--frag", str(frag),
-               "--scale", str(scale), "--delay-ms", str(delay_ms), "--every", str(every)]
+               "--scale", str(scale), "--delay-ms", str(delay_ms), "--every", str(every)] + (["--only", only] if only else [])
         procs.append(subprocess.Popen(cmd, stdout=subprocess.PIPE, stderr=subprocess.PIPE, env=dict(os.environ, RUST_BACKTRACE="0")))
     runs = 0
     for p in procs:
@@ -73,6 +73,8 @@ def run_reader_check(prop, tier):
         mc("ReaderMC", "ReaderMC_subsets_mc.cfg")
         p, _ = gen_behaviours("ReaderMC_subsets.cfg", "reader_subsets")
         sets.append(("subsets", p, 0))
+        # the same chunk lists with a unit of 3 000 000 bytes: runs of adjacent chunks of 9 - 30 MB (beyond any 8 / 16 MiB staging on the way)
+        sets.append(("subsets_scale3000000", p, 0, {"scale": 3000000, "every": 3 if tier == "quick" else 1}))
     else:
         mc("ReaderMC", "ReaderMC_%s.cfg" % tier)
         mc("LocalMC", "LocalMC_mc.cfg")
@@ -83,11 +85,18 @@ def run_reader_check(prop, tier):
         # and with a non-zero retry delay (the Delay state of the range request)
         sets.append(("faults_scale70000", p, 0, {"scale": 70000, "every": 3 if tier == "quick" else 1}))
         sets.append(("faults_scale4096_frag3000", p, 3000, {"scale": 4096, "every": 5 if tier == "quick" else 1}))
+        sets.append(("faults_scale3000000", p, 0, {"scale": 3000000, "every": 23 if tier == "quick" else 5}))
         sets.append(("faults_delay15ms", p, 0, {"delay_ms": 15, "every": 6 if tier == "quick" else 2}))
         if tier == "thorough":
             sets.append(("faults_frag2", p, 2))
         lp = gen_cached("LocalMC", "LocalMC.cfg" if tier == "quick" else "LocalMC_thorough.cfg", "reader_local_" + tier)
         sets.append(("local_readat", lp, 0))
+        # the single-shot range read (read_at over HTTP: the header reads of every remote clone) under body fragmentation, with bodies of
+        # 70 000-byte units that arrive in several frames anyway, and with a retry delay
+        sets.append(("readat_frag1", lp, 1, {"only": "read_at"}))
+        sets.append(("readat_scale70000", lp, 0, {"only": "read_at", "scale": 70000}))
+        sets.append(("readat_scale4096_frag3000", lp, 3000, {"only": "read_at", "scale": 4096}))
+        sets.append(("readat_delay15ms", lp, 0, {"only": "read_at", "delay_ms": 15, "every": 3 if tier == "quick" else 1}))
     total = 0
     tv = {"events": 0, "scenarios_ok": 0, "verdicts": 0, "states": 0}
     samples = []
